@@ -18,10 +18,10 @@ Local Open Scope Z_scope.
     bucket (any of the 10 queryable timeframes, fixed or variable records, any number of year files in
     years 1..9999, any occupied slots, any records) and ALL bounds (s, e) at nanosecond precision inside
     years 1..9999 — inside an interval, on its edges, across years, empty or inverted — the query
-    returns exactly the rows of the unrestricted result that are in range, in the same order;
-    for variable-length buckets under the guard [guard_C11] (finding F11, class no-candidate-le-end:
-    some candidate row at or after [s] must be <= [e], unless there is none; and the second-stage
-    buffer must not panic — C09's F4). *)
+    returns exactly the rows of the unrestricted result that are in range, in the same order.
+    (Finding F11, class no-candidate-le-end, is FIXED in /repo: the statement no longer carries that
+    guard.  What is left of [guard_C11] for variable-length buckets: the second-stage buffer must not
+    panic — C09's F4 — and fewer than 2^31 candidate rows.) *)
 Theorem C11_range : forall b s e,
   in_domain_C11 b s e = true ->
   exec_query b (q_go s) (q_go e) = Ok (spec_C11 b s e).
@@ -60,63 +60,23 @@ Theorem C11_plan : forall tf s e y pos,
 Proof. exact selb_range. Qed.
 Print Assumptions C11_plan.
 
-(** trimResultsToRange on any buffer of whole rows sorted by time, for ALL Go times s, e (including
-    wrapped ones): inside the guard it is the range filter ... *)
+(** trimResultsToRange on any buffer of whole rows sorted by time, for ALL Go times s, e: the range
+    filter, without any guard (the fix of F11) *)
 Theorem C11_trim : forall plen s e rows,
-  Forall (wf_row plen) rows -> sorted_rows rows = true -> guard_trim s e rows = true ->
+  Forall (wf_row plen) rows -> sorted_rows rows = true ->
   trim_range s e (plen + 4) (enc_rows rows) = enc_rows (filter (in_range_row s e) rows).
 Proof. exact trim_range_filter. Qed.
 Print Assumptions C11_trim.
 
-(** ... and outside the guard it returns every row from the first one >= s on, although no row is in
-    range: the exact shape of the defect *)
-Theorem C11_trim_outside_guard : forall plen s e rows,
-  Forall (wf_row plen) rows -> sorted_rows rows = true -> guard_trim s e rows = false ->
-  trim_range s e (plen + 4) (enc_rows rows) = enc_rows (drop_rows s rows)
-  /\ drop_rows s rows <> [] /\ filter (in_range_row s e) rows = [].
-Proof. exact trim_range_outside_guard. Qed.
-Print Assumptions C11_trim_outside_guard.
-
-(* ------------------------------------------------------------------------------------------ *)
-(** Full statement (the property as given: all stored histories, all (start, end)): the same without
-    the F11 guard.  Refuted by the faithful model. *)
-Definition no_panic (b : bucket) (s e : qtime) : bool :=
-  match var_candidates b (q_go s) (q_go e) with Ok c => Z.of_nat (length c) <=? maxInt32 | _ => negb (b_var b) end.
-
-Definition C11_full : Prop := forall b s e,
-  wf_bucket b = true -> sane_time s = true -> sane_time e = true -> no_panic b s e = true ->
-  exec_query b (q_go s) (q_go e) = Ok (spec_C11 b s e).
-
-(** witness: a 1Min variable bucket, year 2020, one record 30 s into the first minute of Jan 2;
-    the query [Jan 2 00:00:00, Jan 2 00:00:10] ends inside that interval before the record *)
+(** the former refutation witnesses are regression examples now: a range that ends inside an interval
+    before its first record returns nothing *)
 Definition C11_witness : bucket :=
   mkBk 60000000000 true 24 8
        [ mkYF 2020 [ mkSlot 1441 1441 [] 14 [ mkRow 1577923230 0 [x2a; x00; x00; x00] ] ] ].
-Definition C11_witness_s : qtime := (1577923200, 0).
-Definition C11_witness_e : qtime := (1577923210, 0).
-
-Theorem C11_refuted : ~ C11_full.
-Proof.
-  intros H.
-  specialize (H C11_witness C11_witness_s C11_witness_e eq_refl eq_refl eq_refl eq_refl).
-  vm_compute in H. discriminate H.
-Qed.
-Print Assumptions C11_refuted.
-
-(** the same defect on the pure function *)
-Definition C11_trim_full : Prop := forall plen s e rows,
-  Forall (wf_row plen) rows -> sorted_rows rows = true ->
-  trim_range s e (plen + 4) (enc_rows rows) = enc_rows (filter (in_range_row s e) rows).
-
-Theorem C11_trim_refuted : ~ C11_trim_full.
-Proof.
-  intros H.
-  specialize (H 0%nat (go_unix 0 0) (go_unix 5 0) [mkRow 10 0 []]).
-  assert (W : Forall (wf_row 0) [mkRow 10 0 []]).
-  { constructor; [|constructor]. unfold wf_row. cbn. repeat split; vm_compute; intuition discriminate. }
-  specialize (H W eq_refl). vm_compute in H. discriminate H.
-Qed.
-Print Assumptions C11_trim_refuted.
+Example C11_former_witness :
+  exec_query C11_witness (q_go (1577923200, 0)) (q_go (1577923210, 0)) = Ok []
+  /\ trim_range (go_unix 0 0) (go_unix 5 0) 4 (enc_rows [mkRow 10 0 []]) = [].
+Proof. split; vm_compute; reflexivity. Qed.
 
 (* ------------------------------------------------------------------------------------------ *)
 (** Non-vacuity: concrete non-trivial inputs meet the hypotheses. *)
@@ -149,17 +109,17 @@ Proof. split; vm_compute; reflexivity. Qed.
 
 Example C11_trim_nonvacuous :
   let rows := [mkRow 10 0 [x01]; mkRow 10 5 [x02]; mkRow 12 0 [x03]] in
-  Forall (wf_row 1) rows /\ sorted_rows rows = true /\ guard_trim (go_unix 10 1) (go_unix 11 0) rows = true.
+  Forall (wf_row 1) rows /\ sorted_rows rows = true.
 Proof.
-  cbv zeta. split; [|split; vm_compute; reflexivity].
+  cbv zeta. split; [|vm_compute; reflexivity].
   repeat constructor; unfold in_ity; vm_compute; intuition discriminate.
 Qed.
 
-(** Observation (not part of the property): the query API's default upper bound is
-    time.Unix(math.MaxInt64, 0), whose internal seconds wrap negative, so Go orders it BEFORE every
-    stored row; a variable-length bucket still returns all its rows for the default range only because
-    of the very quirk above (no candidate <= End leaves the result uncut). *)
-Example C11_api_default_relies_on_quirk :
+(** The query API's default upper bound time.Unix(math.MaxInt64, 0) wraps to a negative internal second
+    (Go orders it BEFORE every stored row); Query.SetEnd now replaces such a bound by MaxTime, so the
+    default range returns every row because every row is <= MaxTime — no longer through the F11 quirk. *)
+Example C11_api_default :
   exec_query ex_var (go_unix 0 0) (go_unix 9223372036854775807 0) = Ok (enc_rows (var_rows_all ex_var))
-  /\ guard_trim (go_unix 0 0) (go_unix 9223372036854775807 0) (var_rows_all ex_var) = false.
-Proof. split; vm_compute; reflexivity. Qed.
+  /\ t_le (go_unix 9223372036854775807 0) (go_unix 0 0) = true
+  /\ clamp_end (go_unix 9223372036854775807 0) = planner_MaxTime.
+Proof. repeat split; vm_compute; reflexivity. Qed.
